@@ -10,7 +10,7 @@ LITS = [
     lambda r: ast.Float(r.choice(["1.5", "-0.25", "1e3", "2.5E-2", "3.0e+1"])),
     lambda r: ast.Boolean(r.choice(["true", "false", "TRUE", "False"])),
     lambda r: ast.String(r.choice(["", "a", "O'B", "it''s", "100%", "a_c", "x y", "é", "'"])),
-    lambda r: ast.Geography(r.choice(["POINT(1 2)", "SRID=4326;POINT(0 0)", ""])),
+    lambda r: ast.Geography(r.choice(["POINT(1 2)", "SRID=4326;POINT(0 0)", "", "it''s", "a''''b", "''"])),     # the lexer keeps the text between the quotes as written
     lambda r: ast.Date(r.choice(["2020-01-01", "1999-12-31"])),
     lambda r: ast.Time(r.choice(["12:30:00", "00:00:00.123"])),
     lambda r: ast.DateTime(r.choice(["2020-01-01T10:00:00Z", "2020-01-01T10:00", "2020-01-01T10:00:00.5+01:00"])),
